@@ -422,5 +422,8 @@ func init() {
 		r.AddSample(map[string]interface{}{"configuration": cfgs[len(cfgs)-1]})
 		r.AddPart(map[string]interface{}{"engine": "ENUM", "name": "c10-box", "configurations": len(cfgs), "evaluated": evals, "box": map[string]int{"max_n": maxN, "max_batch": maxB, "max_parallelism": maxP}, "wall_s": time.Since(start).Seconds()})
 		fmt.Fprintf(os_stderr(), "[c10] %d configurations, %d evaluated (%.1fs)\n", len(cfgs), evals, time.Since(start).Seconds())
+		// HTTP-typed building blocks against a real peer: pull (HttpDatasetSource), push (HttpDatasetSink), and an
+		// HTTP transform endpoint that counts what it is sent (once per entity and run; first request answered 503)
+		jPeerPart(r, "C10")
 	})
 }
